@@ -155,11 +155,11 @@ func extractRow(fn *ssa.Function, send bool) *codecRow {
 		for _, ins := range b.Instrs {
 			switch t := ins.(type) {
 			case *ssa.If:
-				c, ok := t.Cond.(*ssa.BinOp)
-				if !ok || c.Op != token.GTR {
+				cBig, cSmall, strict, ok := ordCmpSSA(t.Cond)
+				if !ok || !strict {
 					continue
 				}
-				l, r := linOf(c.X), linOf(c.Y)
+				l, r := linOf(cBig), linOf(cSmall)
 				if !l.ok || !r.ok || l.base != pos || r.String() != limit {
 					continue
 				}
